@@ -175,6 +175,38 @@ class History:
         return {'streams': rows('Stream'), 'files': rows('media_file'), 'keys': rows('Key'),
                 'mps': rows('mp_stream'), 'periods': rows('period'), 'blobs': rows('Blob')}
 
+    def scripted_prefix(self, rng) -> list:
+        """A directed opening that random generation reaches too rarely: two (or three) indexed encrypted
+        files that share one key id in one or two streams, optionally a user-supplied key for that id
+        first; the random suffix then deletes, replaces and re-indexes around them."""
+        from dlv import mgmt as G
+        names = rng.sample(['bbb_v7_enc.mp4', 'bbb_a1_enc.mp4', 'bbb_v7.mp4'], rng.choice([2, 3]))
+        two_streams = rng.random() < 0.4
+
+        def last_stream(w, k=1):
+            return w['streams'][-k] if len(w['streams']) >= k else None
+
+        def upload(fname, k=1):
+            def f(w):
+                s = last_stream(w, k)
+                return G.op_upload(s['pk'], fname, self.media_lib[fname]) if s else None
+            return f
+
+        def index_last(w):
+            un = [x for x in w['files'] if not x.get('rep')]
+            return G.op_index(un[-1]['pk']) if un else None
+
+        out = []
+        if rng.random() < 0.3:
+            out.append(lambda w: G.op_add_key('1ab45440532c439994dc5c5ad9584bac', '%032x' % rng.getrandbits(128)))
+        out.append(lambda w: G.op_add_stream('alpha', 'Scripted alpha'))
+        if two_streams:
+            out.append(lambda w: G.op_add_stream('beta', 'Scripted beta'))
+        for i, fname in enumerate(names):
+            out.append(upload(fname, 1 + (i % 2 if two_streams else 0)))
+            out.append(index_last)
+        return out
+
     def gen_op(self, rng, w: dict) -> dict:
         from dlv import mgmt as G
         streams, files, keys, mps = w['streams'], w['files'], w['keys'], w['mps']
@@ -289,9 +321,15 @@ class History:
         steps: list[dict] = []
         ops_log: list[dict] = []
         reported: set[str] = set()
+        script = self.scripted_prefix(rng) if replay_ops is None and rng.random() < 0.35 else []
+        length += len(script)
         for step in range(length):
             w = self.world()
-            if replay_ops is not None:
+            if script:
+                op = script.pop(0)(w)
+                if op is None:
+                    op = self.gen_op(rng, w)
+            elif replay_ops is not None:
                 if step >= len(replay_ops):
                     return
                 op = dict(replay_ops[step])
@@ -396,6 +434,10 @@ class History:
                 res.violation('media-deletion-removes-other-files', f'{op["url"]}: removed {wrong[:2]}', rp)
             if t.get('Stream') and t['Stream']['n_removed'] > t['Stream']['n_added']:
                 res.violation('media-deletion-removes-stream', f'{op["url"]}', rp)
+            if t.get('Key') and t['Key']['n_removed'] > t['Key']['n_added']:
+                # a key is never owned by one media file: it may have been supplied by a user and
+                # other files can be encrypted with it
+                res.violation('media-deletion-removes-keys', f'{op["url"]}: removed keys {t["Key"]["removed"][:2]}', rp)
         if name == 'upload':
             spk = int(op['url'].split('/')[2])
             gone = [r for r in removed('media_file') if r.get('stream') != spk]
@@ -407,6 +449,8 @@ class History:
                 if really_gone:
                     res.violation('upload-deletes-file-of-another-stream',
                                   f'{op["url"]} file {op["file"][0]}: removed media file(s) {really_gone[:2]} of another stream', rp)
+        if name in ('upload', 'index-media', 'edit-media') and t.get('Key') and t['Key']['n_removed'] > t['Key']['n_added']:
+            res.violation(f'{name}-removes-keys', f'{op["url"]}: removed keys {t["Key"]["removed"][:2]}', rp)
         if name.startswith('delete-key'):
             if t.get('media_file') and t['media_file']['n_removed'] > t['media_file']['n_added']:
                 res.violation('key-deletion-removes-media-files', f'{op["url"]}', rp)
